@@ -25,16 +25,27 @@ struct Arr { bool is_index = false; size_t count = 0, esz = 0; std::vector<doubl
 struct MSlot { int kind = -1; std::vector<int> e, i; bool view = false; size_t off = 0, len = 0; };
 struct Model
 {
-  std::map<int, Arr> arr; int next = 1; MSlot s[8];
+  std::map<int, Arr> arr; int next = 1; MSlot s[8]; std::vector<int> lay[4]; int laykind[4] = {-1, -1, -1, -1};   // lay: index arrays referenced by held SparseLayout objects
   int add_e(size_t n, size_t esz, const std::vector<double>& v, bool def = true) { Arr a; a.count = n; a.esz = esz; a.dv = v; a.dv.resize(n, 0.0); a.defined = def; arr[next] = a; return next++; }
   int add_i(size_t n, size_t esz, const std::vector<std::uint64_t>& v, bool def = true) { Arr a; a.is_index = true; a.count = n; a.esz = esz; a.iv = v; a.iv.resize(n, 0); a.defined = def; arr[next] = a; return next++; }
-  void gc() { std::set<int> live; for(auto& x : s) if(x.kind >= 0 && !x.view) { for(int k : x.e) live.insert(k); for(int k : x.i) live.insert(k); } for(auto it = arr.begin(); it != arr.end();) { if(!live.count(it->first)) it = arr.erase(it); else ++it; } }
+  void gc() { std::set<int> live; for(auto& x : s) if(x.kind >= 0 && !x.view) { for(int k : x.e) live.insert(k); for(int k : x.i) live.insert(k); } for(int q = 0; q < 4; ++q) if(laykind[q] >= 0) for(int k : lay[q]) live.insert(k); for(auto it = arr.begin(); it != arr.end();) { if(!live.count(it->first)) it = arr.erase(it); else ++it; } }
   size_t bytes() const { size_t b = 0; for(auto& kv : arr) { size_t c = kv.second.count; if(c == 0) continue; if(c % 4) c += 4 - c % 4; b += c * kv.second.esz; } return b; }
   bool borrowed(int id, int except) const { for(int k = 0; k < 8; ++k) if(k != except && s[k].kind >= 0 && s[k].view) for(int q : s[k].e) if(q == id) return true; return false; }
   int owners(int id) const { int n = 0; for(auto& x : s) if(x.kind >= 0 && !x.view) { for(int q : x.e) if(q == id) ++n; for(int q : x.i) if(q == id) ++n; } return n; }
 };
 
 // ---------------------------------------------------------------- type-erased containers
+struct Obj;
+/// a SparseLayout object kept alive on its own (a sharing relative without value arrays)
+struct LHold
+{
+  virtual ~LHold() {}
+  virtual int kind() const = 0;
+  virtual std::unique_ptr<Obj> build() const = 0;                 // matrix constructed from the held layout
+  virtual std::unique_ptr<LHold> empty_same() const = 0;          // default constructed layout of the same type
+  virtual std::unique_ptr<LHold> move_construct() = 0;            // new layout object from std::move(held)
+  virtual void move_assign(LHold& other) = 0;                     // held = std::move(other.held)
+};
 struct Obj
 {
   virtual ~Obj() {}
@@ -54,7 +65,9 @@ struct Obj
   virtual std::unique_ptr<Obj> reserialize() const = 0;
   virtual std::unique_ptr<Obj> from_layout() const { return nullptr; }
   virtual std::unique_ptr<Obj> from_layout_assign(bool prefilled) const { (void)prefilled; return nullptr; }   // target = src.layout() (operator=)
+  virtual std::unique_ptr<LHold> hold_layout() const { return nullptr; }
 };
+template<typename C, int K> struct LHoldT;
 template<typename C, int K> struct ObjT : Obj
 {
   C c; typedef typename C::DataType DT;
@@ -77,12 +90,26 @@ template<typename C, int K> struct ObjT : Obj
   {
     if constexpr(K == K_CSR64 || K == K_CSR32 || K == K_BCSR22 || K == K_CSCR || K == K_BAND) { return std::unique_ptr<Obj>(new ObjT(C(c.layout()))); } else return nullptr;
   }
+  std::unique_ptr<LHold> hold_layout() const override
+  {
+    if constexpr(K == K_CSR64 || K == K_CSR32 || K == K_BCSR22 || K == K_CSCR || K == K_BAND) { return std::unique_ptr<LHold>(new LHoldT<C, K>(c.layout())); } else return nullptr;
+  }
   std::unique_ptr<Obj> from_layout_assign(bool prefilled) const override
   {
     // layout ASSIGNMENT to an existing object: empty (default constructed) or already holding its own arrays (a deep clone,
     // whose arrays the assignment has to release)
     if constexpr(K == K_CSR64 || K == K_CSR32 || K == K_BCSR22 || K == K_CSCR || K == K_BAND) { auto* o = new ObjT(); if(prefilled) o->c = c.clone(CloneMode::Deep); o->c = c.layout(); return std::unique_ptr<Obj>(o); } else return nullptr;
   }
+};
+template<typename C, int K> struct LHoldT : LHold
+{
+  typedef decltype(std::declval<const C&>().layout()) LT; LT lay;
+  LHoldT() {} explicit LHoldT(LT&& l) : lay(std::move(l)) {}
+  int kind() const override { return K; }
+  std::unique_ptr<Obj> build() const override { return std::unique_ptr<Obj>(new ObjT<C, K>(C(lay))); }
+  std::unique_ptr<LHold> empty_same() const override { return std::unique_ptr<LHold>(new LHoldT()); }
+  std::unique_ptr<LHold> move_construct() override { return std::unique_ptr<LHold>(new LHoldT(std::move(lay))); }
+  void move_assign(LHold& other) override { lay = std::move(static_cast<LHoldT&>(other).lay); }
 };
 typedef ObjT<DV64, K_DV64> ODV64; typedef ObjT<DV32, K_DV32> ODV32; typedef ObjT<DVB2, K_DVB2> ODVB2; typedef ObjT<CSR64, K_CSR64> OCSR64;
 typedef ObjT<CSR32, K_CSR32> OCSR32; typedef ObjT<BCSR22, K_BCSR22> OBCSR; typedef ObjT<CSCR, K_CSCR> OCSCR; typedef ObjT<BAND, K_BAND> OBAND;
@@ -93,7 +120,8 @@ static size_t isz_of(int k) { return (k == K_DV32 || k == K_CSR32) ? 4 : 8; }
 
 struct World
 {
-  std::unique_ptr<Obj> o[8]; Model m; J hist = J::arr(); Ctx* ctx = nullptr; long step = 0;
+  std::unique_ptr<Obj> o[8]; std::unique_ptr<LHold> L[4]; Model m; J hist = J::arr(); Ctx* ctx = nullptr; long step = 0;
+  void drop_layout(int a) { L[a].reset(); m.lay[a].clear(); m.laykind[a] = -1; m.gc(); }
 
   /// register the arrays of a freshly built (unshared) object in the model, reading their content from the object
   void adopt(int si, bool defined = true)
@@ -169,17 +197,17 @@ static void history_case(Tape& t, Ctx& c)
   VF_CHECK(MemoryPool::allocated_memory() == 0, "MemoryPool not empty at the start of the history");
   int nops = t.sized(2, 24, 2);
   std::set<std::string> ops_seen;
-  enum { O_BUILD, O_CLONE, O_SHARE, O_XCONV, O_MOVEC, O_MOVEA, O_LAYOUT, O_VIEW, O_CLEAR, O_DESTROY, O_WRITE, O_FORMAT, O_SERIAL, O_COPY, O_N };
-  static const char* on[] = {"construct", "clone", "convert:same-type", "convert:cross-type", "move-construct", "move-assign", "layout-share", "range-view", "clear", "destroy", "write", "format", "serialize-deserialize", "copy"};
+  enum { O_BUILD, O_CLONE, O_SHARE, O_XCONV, O_MOVEC, O_MOVEA, O_LAYOUT, O_VIEW, O_CLEAR, O_DESTROY, O_WRITE, O_FORMAT, O_SERIAL, O_COPY, O_LAYOBJ, O_N };
+  static const char* on[] = {"construct", "clone", "convert:same-type", "convert:cross-type", "move-construct", "move-assign", "layout-share", "range-view", "clear", "destroy", "write", "format", "serialize-deserialize", "copy", "layout-object"};
   for(int st = 0; st < nops; ++st)
   {
     std::vector<int> live; for(int i = 0; i < 8; ++i) if(w.m.s[i].kind >= 0) live.push_back(i);
-    int op = live.empty() ? O_BUILD : t.pick({5, 5, 3, 2, 2, 3, 2, 2, 2, 3, 3, 2, 1, 2});
+    int op = live.empty() ? O_BUILD : t.pick({5, 5, 3, 2, 2, 3, 2, 2, 2, 3, 3, 2, 1, 2, 4});
     int si = live.empty() ? 0 : live[(size_t)t.range(0, (int)live.size() - 1)]; int di = t.range(0, 7);
     J h = J::obj(); std::string opn = on[op];
     MSlot src = w.m.s[si];
     // views (foreign memory) only support: deep clone, write, destroy, (being read)
-    if(!live.empty() && src.view && !(op == O_CLONE || op == O_WRITE || op == O_DESTROY || op == O_BUILD || op == O_MOVEC || op == O_MOVEA)) op = O_DESTROY, opn = on[op];
+    if(!live.empty() && src.view && op != O_LAYOBJ && !(op == O_CLONE || op == O_WRITE || op == O_DESTROY || op == O_BUILD || op == O_MOVEC || op == O_MOVEA)) op = O_DESTROY, opn = on[op];
     switch(op)
     {
     case O_BUILD: { int kind = t.range(0, K_COUNT - 1); h.set("op", opn); h.set("dst", di); h.set("kind", kname[kind]); auto nb = build(t, kind, h); w.note(h, opn); w.drop(di); w.o[di] = std::move(nb); w.adopt(di); break; }
@@ -256,6 +284,28 @@ static void history_case(Tape& t, Ctx& c)
       // an object deserialised from a container without arrays may legitimately carry zero-length arrays: follow the object
       if(w.o[di]->ne() != ms.e.size() || w.o[di]->ni() != ms.i.size()) { bool empty = true; for(int id : ms.e) empty = empty && w.m.arr.at(id).count == 0; for(size_t k = 0; k < w.o[di]->ne(); ++k) empty = empty && w.o[di]->ecount(k) == 0; for(size_t k = 0; k < w.o[di]->ni(); ++k) empty = empty && w.o[di]->icount(k) == 0; if(empty) { w.m.s[di] = MSlot(); w.adopt(di); break; } }
       w.m.s[di] = ms; break; }
+    case O_LAYOBJ: {
+      // SparseLayout objects living on their own: hold the layout of a matrix, move-construct / move-assign it (also over a
+      // layout that still references arrays), build a matrix from it, destroy it - in any order relative to the matrices
+      int a = t.range(0, 3), b = (a + 1 + t.range(0, 2)) % 4; std::vector<int> held; for(int q = 0; q < 4; ++q) if(w.m.laykind[q] >= 0) held.push_back(q);
+      int sub = t.pick({4, 3, 2, 3, 2}); static const char* sn[] = {"hold", "move-assign", "move-construct", "build-matrix", "destroy"};
+      if(sub == 0 && (src.view || !is_matrix(src.kind))) { --st; if(t.flag()) ++st; continue; }
+      if(sub != 0 && held.empty()) { --st; if(t.flag()) ++st; continue; }
+      if(sub != 0) { b = held[(size_t)t.range(0, (int)held.size() - 1)]; if(a == b) a = (b + 1) % 4; }
+      opn = std::string("layout-object:") + sn[sub]; h.set("op", opn);
+      switch(sub)
+      {
+      case 0: { h.set("src", si); h.set("layout", a); w.note(h, opn); w.drop_layout(a); w.L[a] = w.o[si]->hold_layout(); w.m.lay[a] = src.i; w.m.laykind[a] = src.kind; break; }
+      case 1: { const bool over = w.m.laykind[a] == w.m.laykind[b]; h.set("from", b); h.set("to", a); h.set("target", over ? "holds-arrays" : "empty"); c.label(over ? "layout-move-assign:over-filled" : "layout-move-assign:to-empty"); w.note(h, opn);
+        if(!over) { w.drop_layout(a); w.L[a] = w.L[b]->empty_same(); }
+        w.L[a]->move_assign(*w.L[b]); w.m.lay[a] = w.m.lay[b]; w.m.laykind[a] = w.m.laykind[b]; w.drop_layout(b); break; }
+      case 2: { h.set("from", b); h.set("to", a); w.note(h, opn); w.drop_layout(a); auto nl = w.L[b]->move_construct();
+        w.L[a] = std::move(nl); w.m.lay[a] = w.m.lay[b]; w.m.laykind[a] = w.m.laykind[b]; w.drop_layout(b); break; }
+      case 3: { h.set("layout", b); h.set("dst", di); w.note(h, opn); auto nb = w.L[b]->build(); w.drop(di); w.o[di] = std::move(nb);
+        MSlot ms; ms.kind = w.m.laykind[b]; ms.i = w.m.lay[b]; for(size_t k = 0; k < w.o[di]->ne(); ++k) ms.e.push_back(w.m.add_e(w.o[di]->ecount(k), esz_of(ms.kind), {}, false)); w.m.s[di] = ms; break; }
+      default: { h.set("layout", b); w.note(h, opn); w.drop_layout(b); break; }
+      }
+      break; }
     default: { // copy: needs a second object of the same kind with identical array sizes
       int dj = -1; for(int k : live) if(k != si && w.m.s[k].kind == src.kind && !w.m.s[k].view && w.m.s[k].e.size() == src.e.size() && w.m.s[k].i.size() == src.i.size()) { bool same = true; for(size_t q = 0; q < src.e.size(); ++q) same = same && w.m.arr.at(w.m.s[k].e[q]).count == w.m.arr.at(src.e[q]).count; for(size_t q = 0; q < src.i.size(); ++q) same = same && w.m.arr.at(w.m.s[k].i[q]).count == w.m.arr.at(src.i[q]).count; if(same) { dj = k; break; } }
       bool alldef = true; for(int id : src.e) alldef = alldef && w.m.arr.at(id).defined;
@@ -271,7 +321,9 @@ static void history_case(Tape& t, Ctx& c)
   // destroy everything in a generated order; the pool must be empty afterwards
   std::vector<int> order = {0, 1, 2, 3, 4, 5, 6, 7}; for(int i = 8; i > 1; --i) std::swap(order[(size_t)i - 1], order[(size_t)t.range(0, i - 1)]);
   { J h = J::obj(); h.set("op", "destroy-all"); h.set("order", J(order)); w.note(h, "destroy-all"); }
-  for(int k : order) { w.drop(k); w.check("destroy-all"); }
+  const int lpos = t.range(0, 8);   // the held layout objects die somewhere in between
+  for(int q = 0; q < 8; ++q) { if(q == lpos) for(int a = 0; a < 4; ++a) w.drop_layout(a); w.drop(order[(size_t)q]); w.check("destroy-all"); }
+  for(int a = 0; a < 4; ++a) w.drop_layout(a);
   VF_CHECK(MemoryPool::allocated_memory() == 0, "MemoryPool still holds " << MemoryPool::allocated_memory() << " bytes after all containers are gone");
 }
 
